@@ -498,6 +498,19 @@ class Gen:
             payload = bytes(r.randrange(256) for _ in range(self.bufsize * r.choice([2, 3])))
             pk = mq.publish(qos, self.topic(), payload, r.choice([5, 6, 7]) if qos else 0)
             cut = len(pk) - r.randrange(1, self.bufsize)
+            if r.random() < 0.45:
+                # the stall outlasts PauseTimeout: ReadAll sees an expiry without progress and fails; the connection stands in the
+                # middle of the payload, so it must be given up - the next ReadSlices cannot be found reading on it
+                forged = mq.publish(0, b"f", b"forged")
+                self.emit("feed %s tmo tmo %s block" % (H(pk[:cut]), H(forged)))
+                if not self.reader_out:
+                    self.emit("rs")
+                self.emit("readall")
+                self.link, self.parked, self.reader_out, self.doomed = "pending", False, False, False
+                self.subs, self.unsubs, self.ping = [], [], None
+                self.owed = False
+                self.connect()
+                return
             self.emit("feed %s block" % H(pk[:cut]))
             if not self.reader_out:
                 self.emit("rs")
@@ -550,7 +563,10 @@ class Gen:
             self.emit("exhold")
             for _ in range(r.choice([1, 2])):
                 self.publish()
-        self.emit(r.choice(["close", "close", "disconnect"]))
+        how = r.choice(["close", "close", "disconnect"])
+        if how == "disconnect" and self.link == "live" and r.random() < 0.3:
+            self.emit("cpol e")          # the DISCONNECT goes out, the Close of the connection then reports a failure
+        self.emit(how)
         if not self.reader_out:
             self.emit("rs")
         if hold:
